@@ -557,6 +557,20 @@ func genDocs(rng *rand.Rand, schema []*Schema, count int) [][]byte {
 }
 
 // deep schemas: nesting >= 2, sibling sub-documents at equal depth, arrays in documents in arrays
+// veryDeepSchema: a chain of `depth` nested sub-documents with metric leaves at the top, at the bottom and at a few
+// levels in between (deeper than any recursion guard one might add: 33, 64, 100)
+func veryDeepSchema(rng *rand.Rand, depth int) []*Schema {
+	cur := []*Schema{leafSchema(rng, "bottom", 10)}
+	for l := depth - 1; l >= 0; l-- {
+		kids := []*Schema{{Key: fmt.Sprintf("d%d", l), Tag: 0x03, Kids: cur}}
+		if l%16 == 0 {
+			kids = append(kids, leafSchema(rng, fmt.Sprintf("l%d", l), 10))
+		}
+		cur = kids
+	}
+	return append([]*Schema{leafSchema(rng, "top", 10)}, cur...)
+}
+
 func genDeepSchema(rng *rand.Rand) []*Schema {
 	leaf := func(k string) *Schema { return leafSchema(rng, k, 9) }
 	sub := func(k string, kids ...*Schema) *Schema { return &Schema{Key: k, Tag: 0x03, Kids: kids} }
@@ -593,6 +607,9 @@ func streamViews(o *Out, rng *rand.Rand, thorough bool, _ []string) {
 			schema = genDeepSchema(rng)
 		} else {
 			schema = genSchema(rng, 0, 4, false, 8)
+		}
+		if i%50 == 7 {
+			schema = veryDeepSchema(rng, 33+rng.Intn(80))
 		}
 		count := 1 + rng.Intn(7)
 		docs := genDocs(rng, schema, count)
@@ -880,6 +897,9 @@ func streamFuzz(o *Out, rng *rand.Rand, thorough bool, _ []string) {
 		schema := genSchema(rng, 0, 3, false, 8)
 		if b == 0 {
 			schema = genDeepSchema(rng)
+		}
+		if b == 1 {
+			schema = veryDeepSchema(rng, 33+rng.Intn(40))
 		}
 		docs := genDocs(rng, schema, 2+rng.Intn(5))
 		var meta []byte
